@@ -23,10 +23,14 @@
    The socket is the list of the values socket.recv() is going to return; an exhausted list
    (or an empty chunk) is end of file: IO.raw_recv raises ConnectionLost.
 
+   STARTTLS: every arm of _command_STARTTLS in which the session goes on in clear text is
+   modelled (not offered 500, argument 501, before EHLO 503 - C07's `step` - and, new here, a
+   handlers.STARTTLS hook that refuses: `hook_out`); none of them touches io.recv_buffer.  The
+   one arm that does (220 and a handshake: the buffer is discarded, C08) is modelled with a
+   handshake that fails (220, 421, session closed).
    Left out, explicitly (configuration `stream_cfg`): AUTH (the 334 challenge answers are read
    with recv_line too; the server is built with auth=False, so AUTH is an unknown command) and
-   TLS (STARTTLS swaps the byte channel: property C08; context=None, so STARTTLS is an unknown
-   command).  Timeouts never fire (C14).  Definitions only. *)
+   a SUCCESSFUL TLS handshake (it swaps the byte channel: property C08).  Timeouts never fire (C14).  Definitions only. *)
 From Coq Require Import List NArith Bool Arith.
 From SV Require Import lib.Bytes model.Reply model.Data model.Server.
 Import ListNotations.
@@ -170,9 +174,10 @@ Record env := {
   n_v1 : verdict;      (* handle_ehlo/helo/mail/rcpt/data, whichever this line reaches *)
   n_v2 : verdict;      (* handle_have_data *)
   n_v3 : verdict;      (* handle_queued *)
-  n_q : qres           (* result of handoff *)
+  n_q : qres;          (* result of handoff *)
+  n_tls : verdict      (* a handlers.STARTTLS(reply, extensions) hook, if the line reaches it (VKeep: none / leaves 220) *)
 }.
-Definition env_default : env := {| n_v1 := VKeep; n_v2 := VKeep; n_v3 := VKeep; n_q := QOk |}.
+Definition env_default : env := {| n_v1 := VKeep; n_v2 := VKeep; n_v3 := VKeep; n_q := QOk; n_tls := VKeep |}.
 
 (* the i-th command line read uses the i-th entry; lines beyond the list: env_default *)
 Definition pop_env (envs : list env) : env * list env :=
@@ -216,6 +221,27 @@ Inductive sfin :=
    consumers, and with the plain byte string + the batch specifications.
    fuel = number of command lines read (each is followed by at most one reader call).
    Result: the items given to C07's `step` (one per command line read), its outputs, the end. *)
+(* _command_STARTTLS reaches `self._call_custom_handler('STARTTLS', reply, self.extensions)`:
+   the extension is offered, no argument, EHLO seen *)
+Definition starttls_hook (st : sstate) (it : item) : bool :=
+  match classify (it_line it) with
+  | CStarttls => x_starttls (ex st) && negb (Server.nonempty (l_arg (it_line it))) && is_some (s_ehlo (sv st))
+  | _ => false
+  end.
+
+(* what a hook that does not leave the 220 makes of the command: it raised (unhandled_error 421,
+   exception escapes) | it set code c: reply.send, _flush, _check_close_code, and - c being
+   not 220 - return; the session state and io.recv_buffer are untouched.
+   None: the reply is still 220, C07's `step` describes the rest.
+   (C07's event type has no constructor for this hook: the call is not part of the trace.) *)
+Definition hook_out (v : verdict) : option out :=
+  match apply_verdict v 220 with
+  | None => Some {| o_replies := [421]; o_events := []; o_fin := Crashed |}
+  | Some c =>
+      if c =? 220 then None
+      else Some {| o_replies := [c]; o_events := []; o_fin := if is_close c then Closed else Continue |}
+  end.
+
 Section Loop.
   Variable S : Type.
   Variable get_line : S -> option (bytes * S).
@@ -231,19 +257,26 @@ Section Loop.
             let '(e, envs') := pop_env envs in
             let l := parse_line raw in
             let it0 := mk_item e l [] 0 in
-            let go (it : item) (s2 : S) :=
-              let '(st', o) := step st it in                    (* self._handle_command(command, arg) *)
+            (* the command is done: state st', output o; the loop goes on with the unread stream s2 *)
+            let emit (it : item) (r : sstate * out) (s2 : S) :=
+              let '(st', o) := r in
               match o_fin o with
               | Continue => let '(its, os, f) := loop fuel' st' envs' s2 in (it :: its, o :: os, f)
               | Closed => ([it], [o], SClosed)
               | Crashed => ([it], [o], SCrashed)
               end in
+            let go (it : item) (s2 : S) := emit it (step st it) s2 in     (* self._handle_command(command, arg) *)
             if reads_data st it0 then
               (* _get_message_data: max_size = extensions.getparam('SIZE'); DataReader(io, max_size).recv() *)
               match get_data (x_size (ex st)) s1 with
               | None => ([it0], [data_started], SLostInData)
               | Some (Some d, s2) => go (mk_item e l d 0) s2
               | Some (None, s2) => go (mk_item e l [] (over_limit (x_size (ex st)))) s2
+              end
+            else if starttls_hook st it0 then
+              match hook_out (n_tls e) with
+              | Some o => emit it0 (st, o) s1                   (* refused by the hook: clear text goes on *)
+              | None => go it0 s1
               end
             else go it0 s1
         end
@@ -274,8 +307,8 @@ Definition run_batch (fuel : nat) (st : sstate) (envs : list env) (stream : byte
   loop bytes line_spec read_spec_lim fuel st envs stream.
 
 (* ---- the whole session *)
-Definition stream_cfg (mx : option N) : config :=
-  {| cfg_context := false; cfg_tls_immediately := false; cfg_tls_imm_ok := false;
+Definition stream_cfg (mx : option N) (ctx : bool) : config :=
+  {| cfg_context := ctx; cfg_tls_immediately := false; cfg_tls_imm_ok := false;
      cfg_auth := false; cfg_max_size := mx |}.
 
 (* every command line read consumes at least its LF *)
@@ -284,23 +317,23 @@ Definition enough_fuel (stream : bytes) : nat := Datatypes.S (length stream).
 (* handle(): the banner pseudo command, then the loop.
    The first `out` belongs to the connection (banner), the following ones to the command lines. *)
 Definition session (S : Type) (run : nat -> sstate -> list env -> S -> list item * list out * sfin)
-           (fuel : nat) (mx : option N) (vb : verdict) (envs : list env) (s : S)
+           (fuel : nat) (mx : option N) (ctx : bool) (vb : verdict) (envs : list env) (s : S)
   : list item * list out * sfin :=
-  let '(st1, o) := finish (command_BANNER vb (init_state (stream_cfg mx))) in
+  let '(st1, o) := finish (command_BANNER vb (init_state (stream_cfg mx ctx))) in
   match o_fin o with
   | Continue => let '(its, os, f) := run fuel st1 envs s in (its, o :: os, f)
   | Closed => ([], [o], SClosed)
   | Crashed => ([], [o], SCrashed)
   end.
 
-Definition run_server_stream (mx : option N) (vb : verdict) (envs : list env)
+Definition run_server_stream (mx : option N) (ctx : bool) (vb : verdict) (envs : list env)
            (buf : bytes) (chunks : list bytes) : list item * list out * sfin :=
   session istream (fun fuel st envs s => run_stream fuel st envs (fst s) (snd s))
-          (enough_fuel (buf ++ concat chunks)) mx vb envs (buf, chunks).
+          (enough_fuel (buf ++ concat chunks)) mx ctx vb envs (buf, chunks).
 
-Definition run_server_batch (mx : option N) (vb : verdict) (envs : list env) (stream : bytes)
+Definition run_server_batch (mx : option N) (ctx : bool) (vb : verdict) (envs : list env) (stream : bytes)
   : list item * list out * sfin :=
-  session bytes run_batch (enough_fuel stream) mx vb envs stream.
+  session bytes run_batch (enough_fuel stream) mx ctx vb envs stream.
 
 (* the observables of the property *)
 Definition replies_of (os : list out) : list N := flat_map o_replies os.
